@@ -133,7 +133,7 @@ def finalizeNodes (F : Nat) (arrows : Array (Option ElemArrow)) :
 
 /-- every root of the union–find forest holds a `Bound::Complete` -/
 def allFinal (c : Ctx) : Bool :=
-  c.elems.all fun i => match i.data with
+  c.elems.toList.all fun i => match i.data with
     | .equalTo _ => true
     | .root b => match c.slab[b]? with | some (.complete _) => true | _ => false
 
@@ -181,8 +181,8 @@ def finalizeAll (F : Nat) (p : Plan) (st : Built) : UBRes :=
     match finalizeNodes F st.arrows c (List.range p.size) with
     | .error e => .ofErr e
     | .ok (c, out) =>
-      .ok ((Array.range p.size).map fun i =>
-            (out.find? (·.1 = i)).map fun r => (tyOfInf r.2.1, tyOfInf r.2.2))
+      .ok ((List.range p.size).map fun i =>
+            (out.find? (·.1 = i)).map fun r => (tyOfInf r.2.1, tyOfInf r.2.2)).toArray
           (covered F c)
 
 /-- inference as the library runs it.  `order`: the construction order (children before parents);
